@@ -26,7 +26,7 @@ CLAIMED.update({
               "For every radix 2..36: power tables exact on the index ranges the limits allow, exponent/mantissa/power limits and max_digits within their exact bounds, every base that reaches Bigint::pow factored into (odd, shift) and served by an explicit table row whose value is odd^step, all Bellerophon tables within 1 ulp with exact exponents and covering the f64 range; the same-base belief of the fast path is checked against the formats the entry validation admits; mixed-base exponent scaling multiplies before it divides; the odd-radix digit comparison answers Equal only when the theoretical digits are exhausted; integral_binary_factor = ceil(log2 radix); Bellerophon error units.",
               "§4 C05", True),
     "C12": _c("static analysis: flag-to-getter pairing and error-under-flag path conditions on MIR",
-              "Each NumberFormat::<F>::NAME reads exactly flags::NAME (or equals STANDARD's bit without `format`), each getter returns its own const, every flag-specific error in parse_number/parse_*sign is constructed only on paths where that flag's getter tested true and is still constructed somewhere, '-' produces a negative only under T::IS_SIGNED, every syntax flag is read by the parsers it concerns; ExponentWithoutFraction is guarded by the absence of the fraction component itself; a base prefix is looked for only after exactly one leading zero in both parsers. Grammar equivalence over all strings is not decided.",
+              "Each NumberFormat::<F>::NAME reads exactly flags::NAME (or equals STANDARD's bit without `format`), each getter returns its own const, every flag-specific error in parse_number/parse_*sign is constructed only on paths where that flag's getter tested true and is still constructed somewhere, '-' produces a negative only under T::IS_SIGNED, every syntax flag is read by the parsers it concerns; ExponentWithoutFraction is guarded by the absence of the fraction component itself; a base prefix is looked for only after exactly one leading zero in both parsers. The float parser's prefix flag is set only after the prefix character itself was read (a lone `0` stays a digit); the integer parser's start of digits moves only over a recognised prefix; the leading-zeros errors count digits. Grammar equivalence over all strings is not decided.",
               "§4 C12"),
     "C18": _c("static analysis: bit-layout algebra on evaluated constants; builder/flag/rebuild pairing; constraint-table and validation-before-use dominance rules on MIR",
               "The flag part of build->rebuild round-trip is proved (31 distinct single-bit flags, each ORed in from its own field and read back into it; 6 byte fields with matching MASK/SHIFT); format_error_impl has a correctly polarised rejecting branch with the documented error for every documented constraint in both cfg variants; is_valid_radix accepts exactly the feature set's radices; build_strict returns only on Success; every *_with_options back-end call is dominated by is_valid() (and is_valid_options_punctuation for float parsers); is_valid_punctuation compares all three pairs of optional control characters.",
@@ -38,16 +38,16 @@ CLAIMED.update({
               "The memory-safety clause: every unsafe call in the writer crates and `lexical` is classified (guard-dominated, forwarded, named contract, else violation); the radix/table/count assertions and the re-slice dominate every unchecked digit writer; write_float asserts check_buffer and is_valid (in release builds: debug_assert-only tests are not accepted) before any store or back-end; dragonbox_power's argument is the k formula whose range is bounded against the table; FORMATTED_SIZE constants cover the longest numeral; the notation defaults of the writers equal those of buffer_size_const; its exponent allowance covers the integer writer's re-slice window, its digit term honours min_significant_digits on every path; debug-only buffer-length beliefs hold after the sign byte; the generic-radix writers clamp the digits they copy; the u128 digit count mirrors the chunking of the writer. Sufficiency of the bound for every (value, options) is not decided.",
               "§4 C09", True),
     "C10": _c("static analysis: guard dominance with mutation-freedom between guard and use, on MIR of all parse crates; unsafe and panic inventories",
-              "The out-of-bounds clause: all step_unchecked / step_by_unchecked(N) / peek_many_unchecked::<V> / set_cursor sites and all StackVec/ReverseView primitives are shown to be dominated by a guard on the same object giving the needed capacity, with no cursor/length mutation on any path in between; remaining unsafe calls are forwarded inside unsafe fns or named contracts; writers of Bytes.index and StackVec.length are inventoried; explicit panic sites reachable from parse entry points match a reasoned table; every peek dispatch has all 16 arms (its unreachable!() arm); integral_binary_factor leaves enough spare bits for large_quorem's assertion. Arithmetic-overflow/bounds-check panics and termination are not decided.",
+              "The out-of-bounds clause: all step_unchecked / step_by_unchecked(N) / peek_many_unchecked::<V> / set_cursor sites and all StackVec/ReverseView primitives are shown to be dominated by a guard on the same object giving the needed capacity, with no cursor/length mutation on any path in between; remaining unsafe calls are forwarded inside unsafe fns or named contracts; writers of Bytes.index and StackVec.length are inventoried; explicit panic sites reachable from parse entry points match a reasoned table; every peek dispatch has all 16 arms (its unreachable!() arm); integral_binary_factor leaves enough spare bits for large_quorem's assertion. A step guarded only by a length fact is taken only on an iterator known to be contiguous (the debug-build assertion of step_by_unchecked_impl). Arithmetic-overflow/bounds-check panics and termination are not decided.",
               "§4 C10"),
     "C11": _c("static analysis: normalised instruction multisets of sibling bodies under a declared substitution; macro back-traces",
-              "parse_complete/parse_partial and fast_path_complete/fast_path_partial are equal up to the complete->partial callee substitution and pairing results with a count; complete = partial + `count == length`; IS_PARTIAL only selects between errors; the integer algorithms differ only inside the handler macros of the shared algorithm! expansion, and every Ok exit of both passes the required-digits test; the separator predicates treat the end of the buffer like a neutral byte and use run-skipping look-around exactly in the consecutive variants (what a prefix re-parse depends on). The relation over all inputs is not decided.",
+              "parse_complete/parse_partial and fast_path_complete/fast_path_partial are equal up to the complete->partial callee substitution and pairing results with a count; complete = partial + `count == length`; IS_PARTIAL only selects between errors; the integer algorithms differ only inside the handler macros of the shared algorithm! expansion, and every Ok exit of both passes the required-digits test; the separator predicates treat the end of the buffer like a neutral byte and use run-skipping look-around exactly in the consecutive variants (what a prefix re-parse depends on). The take_n window of the skip and no-skip iterators is built identically (prefix of the whole buffer, absolute cursor) and only over a contiguous buffer; the reported position moves past a byte only if it compared equal to the base suffix; the count of every partial Ok is cursor(), cursor() - 1 or buffer_length(). The relation over all inputs is not decided.",
               "§4 C11"),
     "C13": _c("static analysis: peek dispatch decoded against macro back-traces; per-component field/mask/radix pairing; counting-protocol rules on MIR",
-              "All 16 arms of each component iterator's peek dispatch are decoded with that component's flag bits and matched to the peek_<x>/is_<x>/peek_1|peek_n macros they expand; each iterator counts into its own field, masks with its own mask, classifies digits with the radix the parser uses for that component; Number's digit slices are re-iterated with the same component's iterator; digit-consuming steps are followed by increment_count and counting is gated on buffer-level contiguity; all 178 look-arounds of the separator predicates classify the end of the buffer like a neutral byte; consecutive variants look past the whole run and plain variants one byte; skip_zeros returns a digit count. Value preservation over all inputs is not decided.",
+              "All 16 arms of each component iterator's peek dispatch are decoded with that component's flag bits and matched to the peek_<x>/is_<x>/peek_1|peek_n macros they expand; each iterator counts into its own field, masks with its own mask, classifies digits with the radix the parser uses for that component; Number's digit slices are re-iterated with the same component's iterator; digit-consuming steps are followed by increment_count and counting is gated on buffer-level contiguity; all 178 look-arounds of the separator predicates classify the end of the buffer like a neutral byte; consecutive variants look past the whole run and plain variants one byte; skip_zeros returns a digit count. A zero-count take_n window is handed out only when the buffer is contiguous; the float leading-zeros test compares a digit count and reads the first digit through the iterator. Value preservation over all inputs is not decided.",
               "§4 C13"),
     "C15": _c("static analysis: must-pass-through / who-may-produce rules and validator constraint tables on MIR",
-              "Special parsing only on the Err edge of the numeric parse; NAN/INFINITY constants produced only in parse_positive_special, each from its own option string, under the no_special test, sign applied afterwards; the writer's '-' store is control-dependent on needs_negative_sign() = is_sign_negative & !is_nan; a disabled special diverges without a store; both float option builders impose the same constraints on special strings; is_nan / is_inf partition is_special on all mantissa bits.",
+              "Special parsing only on the Err edge of the numeric parse; NAN/INFINITY constants produced only in parse_positive_special, each from its own option string, under the no_special test, sign applied afterwards; the writer's '-' store is control-dependent on needs_negative_sign() = is_sign_negative & !is_nan; a disabled special diverges without a store; both float option builders impose the same constraints on special strings; is_nan / is_inf partition is_special on all mantissa bits; every Ok value the float entry points build after the sign was parsed is dominated by a use of is_negative (the sign of an empty mantissa is not lost).",
               "§4 C15"),
     "C17": _c("static analysis: delegation shape, origin (taint) analysis of stored bytes, validator constraint tables on MIR",
               "lexical::parse* and all lexical_core wrappers/impls are single forwarding calls (equality for the parse side); to_string* write once into a buffer of the documented size and truncate to exactly the returned length; every byte store in the writer crates has an ASCII origin; option builders reject non-ASCII punctuation and non-letter specials on every Ok path; the buffer bound to_string_with_options relies on honours min_significant_digits and the exponent writer's window.",
